@@ -25,7 +25,8 @@ let err_name = function
   | Monitor.EDeallocMismatch -> "DeallocMismatch" | Monitor.ECtorOnLive -> "CtorOnLive"
   | Monitor.EDtorOnDead -> "DtorOnDead" | Monitor.EUseOfDead -> "UseOfDead" | Monitor.ELeak -> "Leak"
 let run_mon toks =
-  let evs = Stdlib.List.concat (Stdlib.List.map events_of_token toks) in
+  (* tail-recursive: logs of colliding hash distributions have several 100 000 tokens *)
+  let evs = Stdlib.List.rev (Stdlib.List.fold_left (fun acc t -> Stdlib.List.rev_append (events_of_token t) acc) [] toks) in
   match Monitor.mon_check evs with
   | None -> print_endline "accept"
   | Some Monitor.ELeak ->
@@ -145,6 +146,10 @@ let () = iter_lines (fun line ->
   | ["hsf"; _; k] ->
     let s0 = with_live (init_state (z (-1)) (z 0) (sched_of (int_of_string k))) (z (-3), z 0) 7 in
     print_result false true (Effects4.first_insert_scn mgr (z 1) (z 2) (z 3) true (z (-3), z 0) s0)
+  | ["rel"; k] ->
+    (* the height 2 -> 3 insertion through TreeSet::Relocator (Effects7.h23_script), k-th fallible step failing; blocks 0 and 1 are the old nodes *)
+    print_result ~sortd:true true false
+      (Effects7.insertion mgr Effects7.esz_std Effects7.grow_dbl true Effects7.h23_script (Effects7.h23_state (sched_of (int_of_string k))))
   | ["tsnprobe"; _] -> print_endline "?"
   | ["tsn"; n; shape; j] ->
     (* shape in preorder: items[(child,...)]; the j-th element copy fails: located among the fallible steps of a failure-free run *)
